@@ -93,6 +93,30 @@ def run_shard(shard: dict, ctx, res, only=None) -> None:
         g, start, ns, s = inner
         res.evaluations += 1
         _one(fil, X, C, N, bounds_, shard, g, start, ns, s, res)
+    # the custom allocator argument: the blocks must not depend on which buffer type backs them
+    if only is None:
+        allocs = {"numpy": lambda n: np.zeros(n, dtype=np.uint8), "memoryview": lambda n: memoryview(bytearray(n))}
+        for g, start, ns, s in [(2, 0, None, 1), (3, 1, N - 1 if N > 1 else None, 0), (N + 1, 0, None, 0)]:
+            if start >= N or (ns is not None and ns < 1):
+                continue
+            n_eff = (N - start) if ns is None else ns
+            if s >= min(g, n_eff):
+                continue
+            for aname, alloc in allocs.items():
+                res.evaluations += 1
+                case = {"shard": shard, "inner": [g, start, ns, s]}
+                try:
+                    pieces = []
+                    for k, (nr, ii, data) in enumerate(fil.read_plan(gulp=g, start=start, nsamps=ns, skipback=s, description="vf", quiet=True, allocator=alloc)):
+                        blk = np.array(data, copy=True).reshape(nr, C)
+                        pieces.append(blk if k == 0 else blk[s:])
+                    got = np.concatenate(pieces)
+                    if got.shape != (n_eff, C) or not np.array_equal(got.astype(np.float64), X[start : start + n_eff].astype(np.float64)):
+                        res.violation({"site": "FilReader.read_plan", "symptom": "wrong samples delivered with a custom allocator", "allocator": aname}, case, f"allocator {aname}")
+                    else:
+                        res.outcome("accepted/custom_allocator")
+                except Exception as e:  # noqa: BLE001
+                    res.violation({"site": "FilReader.read_plan", "symptom": f"raised {type(e).__name__} with a custom allocator", "allocator": aname}, case, repr(e))
     res.sample({"shard": shard, "inner": [2, 0, None, 1]})
 
 
